@@ -206,7 +206,19 @@ func runSuffix(s *Script, rec *Rec) {
 				}
 				stages[stage] = i32(a)
 			}
-			ok := rec.Call(name, func() { suffix.Sort(t, sa) })
+			st, trst := int(num(op["st"])), int(num(op["trst"]))
+			if st > 0 || trst > 0 {
+				// other introsort thresholds (SortCfg hook): the fall-back
+				// paths of both sorting engines on short texts
+				e["st"], e["trst"] = st, trst
+			}
+			ok := rec.Call(name, func() {
+				if st > 0 || trst > 0 {
+					suffix.SortCfg(t, sa, st, trst)
+				} else {
+					suffix.Sort(t, sa)
+				}
+			})
 			suffix.VerifStage = nil
 			if !ok {
 				return
@@ -488,7 +500,11 @@ func genSuffix(seed int64, n int, tier string) []Script {
 						u[k] &= 1
 					}
 				}
-				ops = append(ops, map[string]any{"op": "suffixstages", "t": B2(u)})
+				sop := map[string]any{"op": "suffixstages", "t": B2(u)}
+				if r.Intn(2) == 0 {
+					sop["st"], sop["trst"] = pickInt(r, 1, 2, 3), pickInt(r, 1, 2, 3)
+				}
+				ops = append(ops, sop)
 			}
 		}
 		out = append(out, Script{Tid: "suffix-" + itoa(seed) + "-" + itoa(int64(i)), Comp: "suffix",
